@@ -244,7 +244,8 @@ class NumpyInterpreter:
                     self.context[stmt.assignee] = self.eval_mapper(stmt.expression)
 
             for ident, _, _ in stmt.loops:
-                del self.context[ident]
+                # The identifier was never set if the loop had no iterations.
+                self.context.pop(ident, None)
 
     def exec_AssignFunctionCall(self, stmt):
         parameters = [
